@@ -215,4 +215,23 @@ theorem compileAt_eq_compile (sb s : K) (op : FOp K G) (h : isGaussianPrep op = 
 theorem compileAt_same (s : K) (op : FOp K G) : compileAt s s op = compile s op := by
   cases op <;> simp [compileAt, compile]
 
+/-! ### the purity decision -/
+
+theorem normMat_rescale (s t : K) (hs : s ≠ 0) (ht : t ≠ 0) (V : List (List K)) :
+    normMat (s * t * (s * t)) (V.map fun row => row.map fun v => v * (t * t)) = normMat (s * s) V := by
+  simp only [normMat, List.map_map]
+  apply List.map_congr_left; intro row _
+  simp only [Function.comp, List.map_map]
+  apply List.map_congr_left; intro v _
+  simp only [Function.comp]; field_simp
+
+section
+variable [LinearOrder K] [IsStrictOrderedRing K]
+
+theorem pureNormalised_rescale (det : List (List K) → K) (tol s t : K) (hs : s ≠ 0) (ht : t ≠ 0) (V : List (List K)) :
+    pureNormalised det tol (s * t) (V.map fun row => row.map fun v => v * (t * t)) = pureNormalised det tol s V := by
+  simp only [pureNormalised, normMat_rescale s t hs ht V]
+
+end
+
 end SFV.Hbar
